@@ -259,7 +259,7 @@ def calibrate_model_parameter(
         # FIXME by design, the constructor of the derived classed of ExponentialOfLévyModel are of the above form
         # but this is `hardcoded` in the sense that this design is not enforced
         price = COSPricer(calibrated_model).price(product=product)
-        return price - market_price
+        return float(np.squeeze(price - market_price))
 
     a, b = parameter_interval
     try:
